@@ -82,6 +82,94 @@ def tree_roundtrips(text: str):
     return viol, count_entries(org)
 
 
+SYN_VALUES = ['', 'a', '0', '\n', ' ', '"', "'", '\\', 'é', 'a"b\\n', 'None', 'x\ny']
+
+
+def synthetic_trees(max_entries: int):
+    """Every lark tree with <= max_entries entries below the root whose leaves are tokens (values from SYN_VALUES, the
+    empty text included), missing optionals (None) or childless rules; positions are filled in consistently."""
+    import lark
+
+    def tok(v, line, col):
+        k = lark.Token('TK', v)
+        k.line, k.column, k.end_line = line, col, line + v.count('\n')
+        k.end_column = col + len(v) if '\n' not in v else len(v.split('\n')[-1]) + 1
+        return k
+
+    def tree(name, ch, line):
+        m = lark.tree.Meta()
+        m.line, m.column, m.end_line, m.end_column, m.empty = line, 1, line + 1, 5, False
+        return lark.Tree(name, ch, m)
+
+    def shapes(n):
+        # forests with exactly n entries: each entry is a leaf slot 'L' or a rule with a sub-forest
+        if n == 0:
+            yield ()
+            return
+        for first in range(1, n + 1):
+            for rest in shapes(n - first):
+                if first == 1:
+                    yield ('L',) + rest
+                for sub in shapes(first - 1):
+                    yield (sub,) + rest
+
+    def fill(shape, leaves, counter):
+        out = []
+        for x in shape:
+            if x == 'L':
+                kind = leaves[counter[0]]
+                counter[0] += 1
+                line = counter[0]
+                out.append(None if kind is None else (tree('childless', [], line) if kind == 'T' else tok(kind, line, 2)))
+            else:
+                out.append(tree('rule', fill(x, leaves, counter), counter[0] + 1))
+        return out
+
+    def n_leaves(shape):
+        return sum(1 if x == 'L' else n_leaves(x) for x in shape)
+    import itertools
+    for n in range(1, max_entries + 1):
+        for sh in shapes(n):
+            k = n_leaves(sh)
+            # one varying leaf over all values, the other leaves fixed: every position x every value
+            for pos in range(max(k, 1)):
+                for v in SYN_VALUES + [None, 'T']:
+                    leaves = ['b'] * k
+                    if k:
+                        leaves[pos] = v
+                    yield f'{sh!r} leaf#{pos}={v!r}', tree('root', fill(sh, leaves, [0]), 1)
+                if not k:
+                    break
+
+
+def synthetic_layer():
+    from rogw.tranp.implements.syntax.lark.entry import EntryOfLark, Serialization
+    from rogw.tranp.implements.syntax.lark.parser import EntryStored
+    viol, n = [], 0
+    seen = set()
+    for label, t in synthetic_trees(4):
+        n += 1
+        org = EntryOfLark(t)
+        for how in ('dumps-loads', 'stored-save-load'):
+            try:
+                if how == 'dumps-loads':
+                    back = EntryOfLark(Serialization.loads(json.loads(json.dumps(Serialization.dumps(t)))))
+                else:
+                    buf = io.BytesIO()
+                    EntryStored(org).save(buf)
+                    buf.seek(0)
+                    back = EntryStored.load(buf).entry
+                d = entry_diff(org, back, org.name)
+            except Exception as e:  # noqa
+                d = ('raises', type(e).__name__, '', str(e)[:80])
+            if d:
+                sig = ['synthetic', how, d[0], 'empty-text-token' if "=''" in label else ('missing-optional' if '=None' in label else 'token')]
+                if tuple(sig) not in seen:
+                    seen.add(tuple(sig))
+                    viol.append((sig, f'hand-built tree {label}: field {d[0]} at {d[1]}: {d[2]!r} -> {d[3]!r}', {'synthetic': label}))
+    return viol, n
+
+
 def _tag(path: str) -> str:
     import re
     return re.sub(r'\[\d+\]', '', path.split('.')[-1])
@@ -194,10 +282,13 @@ def run(ctx):
     for viol, cnt in res2:
         nodes += cnt
         ctx.merge(viol)
+    sviol, n_syn = synthetic_layer()
+    ctx.merge(sviol)
     return {
-        'evaluations': n + len(batches),
+        'evaluations': n + len(batches) + n_syn,
+        'synthetic_trees': n_syn,
         'distinct_nontrivial': n,
-        'rule': 'every sentence of the enumerated corpus (expressions <= 2 operator applications, statement templates) and every real module (library stubs, example, fixtures) accepted by the working-tree grammar; each tree through dumps/json/loads, EntryStored.save/load and the on-disk cache path (store in one session, restore in a second whose source provider raises); non-trivial = tree accepted by lark (>= 3 entries)',
+        'rule': 'every sentence of the enumerated corpus (expressions <= 2 operator applications, statement templates) and every real module (library stubs, example, fixtures) accepted by the working-tree grammar; each tree through dumps/json/loads, EntryStored.save/load and the on-disk cache path (store in one session, restore in a second whose source provider raises); non-trivial = tree accepted by lark (>= 3 entries); synthetic layer: every hand-built lark tree with <= 4 entries below the root (leaves: tokens, missing optionals, childless rules), every leaf position x token values {SYN_VALUES} (what a project grammar keeping layout tokens produces: tokens with empty text), through dumps/loads and EntryStored',
         'samples': accepted[:2] + accepted[len(accepted) // 2: len(accepted) // 2 + 2] + [m for m, _, _ in reals[:3]],
         'entries_compared': entries,
         'nodes_compared_through_cache': nodes,
@@ -210,7 +301,9 @@ def run(ctx):
 
 def replay(ctx, data):
     _init_worker()
-    if 'src' in data:
+    if 'synthetic' in data:
+        ctx.merge(synthetic_layer()[0])
+    elif 'src' in data:
         viol, _ = tree_roundtrips(data['src'])
         ctx.merge(viol or [])
     else:
